@@ -24,7 +24,8 @@ type half struct {
 	avail   []byte   // readable now
 	held    []byte   // unit kept back by a "swap" fault until the next unit has passed it
 	cut     bool     // a truncation fired: nothing more enters the wire, EOF once it is drained
-	wclosed bool     // no more bytes will come: Read returns EOF once avail is empty
+	wclosed bool     // the writing side closed its end: Write fails, Read returns EOF once avail is empty
+	eof     bool     // the link went down after a truncation: Read returns EOF once avail is empty (the writer does not notice)
 	rclosed bool     // the reading side closed its end
 	seg     []int    // cyclic per-Read maximum (0 = as much as asked for)
 	segi    int
@@ -72,7 +73,7 @@ func (h *half) read(p []byte) (int, error) {
 			}
 			return n, nil
 		}
-		if h.wclosed {
+		if h.wclosed || h.eof {
 			return 0, io.EOF
 		}
 		h.cond.Wait() // durably blocking inside a synctest bubble
@@ -107,8 +108,8 @@ func (h *half) deliver(n int) bool {
 	moved := n > 0
 	h.avail = append(h.avail, h.wire[:n]...)
 	h.wire = h.wire[n:]
-	if len(h.wire) == 0 && h.cut && !h.wclosed {
-		h.wclosed = true
+	if len(h.wire) == 0 && h.cut && !h.eof {
+		h.eof = true
 		moved = true
 	}
 	h.cond.Broadcast()
